@@ -100,6 +100,17 @@ static jwk_set_t *do_op(long seq, int step, int op, jwk_set_t *s)
 	case 11: ret = jwks_item_free_all(s); break;
 	case 12: jwks_error_clear(s); break;
 	case 13: ret = jwks_item_free(s, n + 5); break;
+	case 14: {	/* one document with 300 good keys (kid "k", unique ids): list lengths beyond 255 / 1024 */
+		size_t cnt = n > 3500 ? 5 : 300, cap = cnt * 96 + 32, off;
+		char *big = malloc(cap), one[160];
+		snprintf(ids, sizeof(ids), "bulk:%ld:%zu", next_uid, cnt);
+		off = (size_t)snprintf(big, cap, "{\"keys\":[");
+		for (size_t i = 0; i < cnt; i++) { mk_good(one, sizeof(one), "k", next_uid++); off += (size_t)snprintf(big + off, cap - off, "%s%s", i ? "," : "", one); }
+		snprintf(big + off, cap - off, "]}");
+		s = jwks_load(s, big);
+		free(big);
+		break;
+	}
 	}
 	if (!s) vh_harness_fail("load returned NULL");
 	dump(seq, step, op, ret, s, ids);
@@ -128,6 +139,25 @@ int main(int argc, char **argv)
 				for (int i = 0; i < len; i++) { s = do_op(seq, i, (int)(t % NOPS), s); t /= NOPS; nops++; }
 				jwks_free(s);
 			}
+		}
+	} else if (!strcmp(a.mode, "big")) {
+		/* long keyrings: bulk loads interleaved with removals */
+		for (long q = 0; q < a.n; q++) {
+			jwk_set_t *s;
+			if (!vh_mine(&a, q)) continue;
+			vh_rng_seed(&rng, a.seed, 4000000 + (uint64_t)q);
+			vh_case_begin(q, "\"mode\":\"big\"");
+			next_uid = 100; last_bad_uid = 0;
+			s = jwks_create(NULL);
+			printf("[\"N\",%ld]\n", q);
+			for (int i = 0; i < 40; i++) {
+				int op = i < 2 ? 14 : (int)vh_below(&rng, 18);
+				if (op >= 15) op = 14;
+				if (op == 11 && vh_below(&rng, 3)) op = 7;	/* free_all rarely */
+				s = do_op(q, i, op, s);
+				nops++;
+			}
+			jwks_free(s);
 		}
 	} else {
 		for (long q = 0; q < a.n; q++) {
